@@ -29,6 +29,7 @@ func main() {
 	}
 	debug.SetMaxStack(256 << 20)
 	startWatchdog(60 * time.Second)
+	startMemWatchdog(memLimitFor(stream)) // querypath.go
 	vh.Main(stream, &impl{stream: stream, envs: map[string]string{}})
 }
 
@@ -44,6 +45,8 @@ func (im *impl) Gen(h *vh.H, i int) string {
 		return im.genFuzz(h, i)
 	case "codec.stress":
 		return im.genStress(h, i)
+	case "codec.history":
+		return im.genHistory(h, i) // history.go
 	case "codec.corpus":
 		return im.genCorpus(h, i)
 	}
